@@ -118,3 +118,22 @@ package keeper
 //@ loop 0: invariant forall j :: #i <= j && j < len(sids) ==> readySigning(Store_tss, sids[j])
 //@ loop 0: invariant forall a, b :: 0 <= a && a < b && b < len(sids) ==> sids[a] != sids[b]
 //@ loop 1: invariant len(pendingSids(Store_tss)) == 0
+
+// ---- C09: signers chosen for a signing attempt (partial Fisher-Yates over the available members) ----------
+// available members: active with a queued nonce, pairwise different (body: iterator loop, see C05)
+//@ func (k Keeper) GetAvailableMembers
+//@ trusted
+//@ ensures forall i, j :: 0 <= i && i < j && j < len(result) ==> result[i] != result[j]
+
+// Exactly Threshold pairwise different members, all taken from the available ones, or an error when there are
+// too few. Invariant of the draw loop: the live prefix memberIdx[0 .. n-i) is duplicate-free and in range, and
+// every member selected so far sits at an index that is no longer in that prefix.
+//@ func (k Keeper) GetRandomMembers
+//@ ensures err == nil ==> len(result) == old(groupAt(Store_tss, groupID)).Threshold
+//@ ensures err == nil ==> (forall a, b :: 0 <= a && a < b && b < len(result) ==> result[a] != result[b])
+//@ loop 0: invariant 0 <= i && i <= members_size && len(memberIdx) == members_size && (forall a :: 0 <= a && a < i ==> memberIdx[a] == a)
+//@ loop 1: invariant 0 <= i && i <= group.Threshold && len(selected) == i && len(memberIdx) == members_size
+//@ loop 1: invariant forall a :: 0 <= a && a < members_size - i ==> 0 <= memberIdx[a] && memberIdx[a] < members_size
+//@ loop 1: invariant forall a, b :: 0 <= a && a < b && b < members_size - i ==> memberIdx[a] != memberIdx[b]
+//@ loop 1: invariant forall j :: 0 <= j && j < len(selected) ==> (exists c :: 0 <= c && c < members_size && selected[j] == members[c] && (forall a :: 0 <= a && a < members_size - i ==> memberIdx[a] != c))
+//@ loop 1: invariant forall a, b :: 0 <= a && a < b && b < len(selected) ==> selected[a] != selected[b]
